@@ -291,6 +291,17 @@ func c11Run(c *mc.Ctx) {
 			ref.Value{T: ref.MAP, Key: ref.I32, Elem: ref.I64, L: []ref.Value{gen.Small(ref.I32, 0), gen.Small(ref.I64, 0), gen.Small(ref.I32, 1), gen.Small(ref.I64, 1)}},
 			ref.Value{T: ref.STRING, S: c01Str(300)})
 	}
+	// unknown values whose length / element count needs more than one byte of the size field
+	big := ref.Value{T: ref.LIST, Elem: ref.BYTE}
+	for i := 0; i < 300; i++ {
+		big.L = append(big.L, ref.Value{T: ref.BYTE, I: uint64(i)})
+	}
+	bigMap := ref.Value{T: ref.MAP, Key: ref.I16, Elem: ref.BOOL}
+	for i := 0; i < 0x0201; i++ {
+		bigMap.L = append(bigMap.L, ref.Value{T: ref.I16, I: uint64(i)}, ref.Value{T: ref.BOOL, I: 1})
+	}
+	unknowns = append(unknowns, ref.Value{T: ref.STRING, S: c01Str(0x0102)}, ref.Value{T: ref.STRING, S: c01Str(0x010203)}, big, bigMap,
+		ref.Value{T: ref.SET, Elem: ref.STRING, L: []ref.Value{{T: ref.STRING, S: c01Str(0x0304)}, {T: ref.STRING, S: []byte{}}}})
 	type known struct {
 		id int16
 		v  ref.Value
